@@ -747,3 +747,26 @@ Proof.
   rewrite Hm. cbn [app map]. rewrite IH. f_equal.
   apply map_lookup_eq; [symmetry; exact Hf | exact Hs'].
 Qed.
+
+(* a key bound to something that is not callable (a module constant), directly or inside a chain:
+   every call that resolves to it raises, after the facts and before any definition answers *)
+Theorem noncallable_member_raises f name args nx s e ds d z :
+  reserved name = false ->
+  resolve (e_ctx e) name (length args) = Some ds -> In d ds -> d_const d = Some z ->
+  drain e (query_gen (S f) name args nx s e) =
+  (map (prune nx) (fact_answers (db_get (e_db e) (name, length args)) args s), Raise).
+Proof.
+  intros Hres Hr Hin Hc. rewrite lookup_spec by exact Hres. cbv zeta.
+  assert (Hds : match ctx_get (e_ctx e) (mkkey name (AFix (length args))) with
+                | Some ds0 => ds0
+                | None => match ctx_get (e_ctx e) (mkkey name AVar) with Some ds0 => ds0 | None => [] end
+                end = ds).
+  { unfold resolve in Hr. destruct (ctx_get (e_ctx e) (mkkey name (AFix (length args)))).
+    - inversion Hr. reflexivity.
+    - rewrite Hr. reflexivity. }
+  rewrite Hds.
+  assert (Hf : forallb (params_ok (length args)) ds = false).
+  { destruct (forallb (params_ok (length args)) ds) eqn:E; [|reflexivity].
+    rewrite forallb_forall in E. specialize (E d Hin). unfold params_ok in E. rewrite Hc in E. discriminate. }
+  rewrite Hf. reflexivity.
+Qed.
